@@ -1,24 +1,32 @@
 /-
   C17 - fmtstr accepts any string: never raises, never loses ordinary text.
 
-  Model: `fromStr : Text → Except PyErr FmtStr` (Model/EscParse.lean) mirrors `FmtStr.from_str`, with
-  `parse` / `peel_off_esc_code` / `token_type` / `remove_ansi`; `fmtstrOf s a` mirrors `fmtstr(s, **a)`.
-  The theorems quantify over EVERY `s : List Char` (every Python str without lone surrogates).
+  Model: `fromStr md : Text → Except PyErr FmtStr` (Model/EscParse.lean) mirrors `FmtStr.from_str`, with
+  `parse` / `peel_off_esc_code` / `token_type` / `remove_ansi`; `fmtstrOf md s a` mirrors `fmtstr(s, **a)`.
+  `md` is CPython's int(str) digit limit (a parameter; the driver uses the live interpreter's value).
+  The theorems quantify over EVERY `s : List Char` (every Python str without lone surrogates) and every `md`.
 
   * C17_total     never raises (the model can express KeyError/ValueError escaping; the theorem shows none does).
   * C17_plain     no "ESC[" substring (in particular: no escape sequence at all, C17_plain_spec) ⇒ verbatim, one
                   unformatted run.
+  * C17_strips    POSITIONAL statement: the result's text is `s` with some substrings deleted, each of which is
+                  a complete escape sequence `ESC [ P* I* F`, `0x9b P* I* F` or `ESC Fe` (`Strips`, `IsSeq` in
+                  Proofs/EscParse.lean). C17_sub and C17_keeps are its value-level consequences.
+  * C17_keeps_positional   the same against the INDEPENDENT scanner: every deleted position is one that
+                  Spec/EscScan.lean claims for an escape sequence (`Spec.Aligned (marks s) s (text f)`).
   * C17_sub       the result's text is s with characters removed (List.Sublist: nothing added or reordered).
   * C17_keeps     every character that the independent ECMA-48 scanner (Spec/EscScan.lean) does not claim for an
                   escape sequence is kept.
-  * C17_numeric   for strings of the grammar (text | ESC [ (d+(;d+)*)? I* F)* the text is exactly the texts.
-                  The grammar is the statement's "ordinary numeric CSI sequences": 7-bit introducer `ESC [`,
-                  parameters that are non-empty decimal numbers separated by single ';', intermediates
-                  0x20-0x2f, any final byte 0x40-0x7e (SGR supported or not, cursor movement, erasing ...).
-                  It deliberately EXCLUDES (the code treats them differently, without losing ordinary text):
-                  empty parameters (`ESC[;m` → ";m" stays as text), private-parameter sequences (`ESC[?25l` →
-                  "?25l" stays), and strings whose only sequences use the 8-bit CSI 0x9b (returned verbatim
-                  because the code parses only when "ESC[" occurs).
+  * C17_numeric_full_statement   clause 4 at full strength, over the WIDE grammar
+                  (text | (ESC [ | 0x9b) (d*(;d*)*) I* F)*  - 7-bit or 8-bit introducer, parameters possibly empty.
+                  It is FALSE for the code as it is (open finding D28, `C17_D28_witness*`):
+                    - a string whose sequences all use the 8-bit introducer contains no "ESC[" and takes the
+                      fast path of from_str: it is returned verbatim (`0x9b 31 m x`);
+                    - a sequence with an empty parameter (`ESC[;5H`, `ESC[1;;3A`) is not matched by the numbers
+                      group `(?:[0-9]+;)*(?:[0-9]+)?`; only `ESC[` is peeled and ";5H" stays in the text.
+  * C17_numeric_partial   what holds: all parameters non-empty, and either no 8-bit sequence or at least one
+                  "ESC[" in the string (then 8-bit sequences are parsed/stripped like 7-bit ones). The two
+                  hypotheses are exactly the complement of D28's two shapes.
   * C17_fmtstr    `fmtstr(s, **atts)` returns too, with the same text.
 -/
 import Curtsies.Proofs.EscParse
@@ -27,8 +35,8 @@ namespace Curtsies
 open Spec
 
 /-- `fmtstr(s)` / `FmtStr.from_str(s)` never raise. -/
-theorem C17_total (s : Text) : ∃ f, fromStr s = .ok f := by
-  obtain ⟨f, h, _⟩ := fromStr_strips s
+theorem C17_total (md : Nat) (s : Text) : ∃ f, fromStr md s = .ok f := by
+  obtain ⟨f, h, _⟩ := fromStr_strips md s
   exact ⟨f, h⟩
 
 private theorem hasEscBracket_infix {s : Text} (h : hasEscBracket s = true) : [ESC, '['] <:+: s := by
@@ -45,7 +53,7 @@ private theorem hasEscBracket_infix {s : Text} (h : hasEscBracket s = true) : [E
         exact ⟨a :: x, y, by simp [← hxy]⟩
 
 /-- Text without the two-character substring ESC '[' comes back verbatim as one unformatted run. -/
-theorem C17_plain (s : Text) (h : ¬ [ESC, '['] <:+: s) : fromStr s = .ok [⟨s, {}⟩] := by
+theorem C17_plain (md : Nat) (s : Text) (h : ¬ [ESC, '['] <:+: s) : fromStr md s = .ok [⟨s, {}⟩] := by
   unfold fromStr
   rw [if_neg (fun hb => h (hasEscBracket_infix hb))]
 
@@ -73,27 +81,38 @@ private theorem marks_false_noesc (s : Text) (h : ∀ m ∈ marksFrom .ground s,
 
 /-- "Text containing no escape sequence comes back verbatim and unformatted", with "no escape sequence"
     read off the independent scanner: no character of `s` is claimed by an escape sequence. -/
-theorem C17_plain_spec (s : Text) (h : ∀ m ∈ marks s, m = false) : fromStr s = .ok [⟨s, {}⟩] := by
+theorem C17_plain_spec (md : Nat) (s : Text) (h : ∀ m ∈ marks s, m = false) : fromStr md s = .ok [⟨s, {}⟩] := by
   apply C17_plain
   rintro ⟨x, y, hxy⟩
   exact marks_false_noesc s h ESC (by rw [← hxy]; simp) rfl
 
-/-- The result's text is `s` with characters removed - never added or reordered. -/
-theorem C17_sub (s : Text) (f : FmtStr) (h : fromStr s = .ok f) : (text f).Sublist s := by
-  obtain ⟨f', h', hs⟩ := fromStr_strips s
+/-- Positional form: the result's text is `s` with some complete escape sequences cut out, everything
+    else in place. -/
+theorem C17_strips (md : Nat) (s : Text) (f : FmtStr) (h : fromStr md s = .ok f) : Strips s (text f) := by
+  obtain ⟨f', h', hs⟩ := fromStr_strips md s
   rw [h] at h'; cases h'
-  exact hs.sublist
+  exact hs
+
+/-- The result's text is `s` with characters removed - never added or reordered. -/
+theorem C17_sub (md : Nat) (s : Text) (f : FmtStr) (h : fromStr md s = .ok f) : (text f).Sublist s :=
+  (C17_strips md s f h).sublist
 
 /-- Every character that is not part of an escape sequence (ECMA-48 scanner) is kept, in order. -/
-theorem C17_keeps (s : Text) (f : FmtStr) (h : fromStr s = .ok f) : (ordinary s).Sublist (text f) := by
-  obtain ⟨f', h', hs⟩ := fromStr_strips s
-  rw [h] at h'; cases h'
-  exact hs.keeps .ground
+theorem C17_keeps (md : Nat) (s : Text) (f : FmtStr) (h : fromStr md s = .ok f) :
+    (ordinary s).Sublist (text f) :=
+  (C17_strips md s f h).keeps .ground
+
+/-- Positional form of C17_sub + C17_keeps against the independent scanner: the result's text is `s` with
+    some characters deleted, and every deleted character is at a position the scanner claims for an escape
+    sequence (`Spec.Aligned`). (A value-level Sublist could not tell an ordinary `m` from the `m` of `ESC[31m`.) -/
+theorem C17_keeps_positional (md : Nat) (s : Text) (f : FmtStr) (h : fromStr md s = .ok f) :
+    Aligned (marks s) s (text f) :=
+  (C17_strips md s f h).aligned .ground
 
 /-- `fmtstr(s, **atts)`: returns as well, with the text of `from_str(s)`. -/
-theorem C17_fmtstr (s : Text) (a : Atts) :
-    ∃ f g, fromStr s = .ok f ∧ fmtstrOf s a = .ok g ∧ text g = text f := by
-  obtain ⟨f, h⟩ := C17_total s
+theorem C17_fmtstr (md : Nat) (s : Text) (a : Atts) :
+    ∃ f g, fromStr md s = .ok f ∧ fmtstrOf md s a = .ok g ∧ text g = text f := by
+  obtain ⟨f, h⟩ := C17_total md s
   refine ⟨f, copyWithNewAtts f a, h, by simp [fmtstrOf, h], ?_⟩
   simp only [text, copyWithNewAtts, List.flatMap_map]
 
@@ -102,32 +121,47 @@ theorem C17_fmtstr (s : Text) (a : Atts) :
 example : ¬ [ESC, '['] <:+: ['a', '\n', CSI8, '1', 'm'] := by decide
 example : ordinary ['a', ESC, '[', '1', 'm', 'b', '\n', ESC, 'c', 'd'] = ['a', 'b', '\n', 'd'] := by decide
 
-/-- One piece of a string of the numeric-CSI grammar: ordinary text, or `ESC [ p1;...;pn I* F`. -/
+/-- One piece of a string of the numeric-CSI grammar: ordinary text, or `CSI p1;...;pn I* F` with the
+    7-bit (`ESC [`) or 8-bit (`0x9b`) introducer. -/
 inductive NItem
   | text (t : Text)
-  | csi (ps : List Text) (is : Text) (c : Char)
+  | csi (eight : Bool) (ps : List Text) (is : Text) (c : Char)
 
-/-- text: free of ESC and 0x9b. csi: every parameter a non-empty string of ASCII digits (possibly no
-    parameter at all), intermediates in 0x20-0x2f, final byte in 0x40-0x7e. -/
+/-- The wide grammar of the statement. text: free of ESC and 0x9b. csi: every parameter a (possibly EMPTY)
+    string of ASCII digits, intermediates in 0x20-0x2f, final byte in 0x40-0x7e. -/
+def NItem.Wide : NItem → Prop
+  | .text t => NoIntro t
+  | .csi _ ps is c => (∀ p ∈ ps, ∀ x ∈ p, isDigit x = true) ∧ (∀ x ∈ is, isIntermed x = true) ∧ isFinal c = true
+
+/-- The grammar of the proved part: as `Wide`, with every parameter NON-EMPTY (there may be no parameter). -/
 def NItem.Valid : NItem → Prop
   | .text t => NoIntro t
-  | .csi ps is c => (∀ p ∈ ps, DigStr p) ∧ (∀ x ∈ is, isIntermed x = true) ∧ isFinal c = true
+  | .csi _ ps is c => (∀ p ∈ ps, DigStr p) ∧ (∀ x ∈ is, isIntermed x = true) ∧ isFinal c = true
+
+def NItem.eightBit : NItem → Bool
+  | .text _ => false
+  | .csi eight _ _ _ => eight
 
 def NItem.print : NItem → Text
   | .text t => t
-  | .csi ps is c => csiSeq ps is c
+  | .csi eight ps is c => csiSeq eight ps is c
 
 def NItem.strip : NItem → Text
   | .text t => t
-  | .csi _ _ _ => []
+  | .csi _ _ _ _ => []
 
 /-- the string -/
 def printN (l : List NItem) : Text := l.flatMap NItem.print
 /-- the string without its control sequences -/
 def stripN (l : List NItem) : Text := l.flatMap NItem.strip
 
-private theorem numeric_parse (items : List NItem) (hv : ∀ i ∈ items, i.Valid) :
-    ∀ its, parseLoop (printN items) = .ok its → itemsText its = stripN items := by
+/-- Clause 4 at full strength: for every string of the wide grammar the result's text is exactly the string
+    without its control sequences. NOT a theorem: see `C17_D28_witness`. -/
+def C17_numeric_full_statement (md : Nat) : Prop :=
+  ∀ items : List NItem, (∀ i ∈ items, i.Wide) → ∀ f, fromStr md (printN items) = .ok f → text f = stripN items
+
+private theorem numeric_parse (md : Nat) (items : List NItem) (hv : ∀ i ∈ items, i.Valid) :
+    ∀ its, parseLoop md (printN items) = .ok its → itemsText its = stripN items := by
   induction items with
   | nil =>
     intro its h
@@ -140,8 +174,8 @@ private theorem numeric_parse (items : List NItem) (hv : ∀ i ∈ items, i.Vali
     cases it with
     | text t =>
       simp only [printN, stripN, List.flatMap_cons, NItem.print, NItem.strip] at h ⊢
-      obtain ⟨h1, h2⟩ := parseLoop_append_free (t := t) hit (List.flatMap NItem.print rest)
-      cases hR : parseLoop (List.flatMap NItem.print rest) with
+      obtain ⟨h1, h2⟩ := parseLoop_append_free md (t := t) hit (List.flatMap NItem.print rest)
+      cases hR : parseLoop md (List.flatMap NItem.print rest) with
       | error e => rw [h1 e hR] at h; cases h
       | ok its0 =>
         obtain ⟨its', hp, hc⟩ := h2 its0 hR
@@ -150,21 +184,26 @@ private theorem numeric_parse (items : List NItem) (hv : ∀ i ∈ items, i.Vali
         rw [← text_eq_cells, text_fromStrLoop, List.map_append, ← text_eq_cells, text_fromStrLoop] at this
         rw [this, ih its0 hR]
         simp [stripN, Function.comp_def]
-    | csi ps is c =>
+    | csi eight ps is c =>
       obtain ⟨hps, hi, hc⟩ := hit
       simp only [printN, stripN, List.flatMap_cons, NItem.print, NItem.strip, List.nil_append] at h ⊢
-      rw [parseLoop_csiSeq hps hi hc] at h
-      cases hT : tokenItems (some (csiToken ps is c)) with
-      | error e => rw [hT] at h; cases h
-      | ok toks =>
-        rw [hT] at h
+      rw [parseLoop_csiSeq md eight hps hi hc] at h
+      cases hN : postNumbers md (joinSemi ps) with
+      | error e => rw [hN] at h; cases h
+      | ok v =>
+        rw [hN] at h
         simp only [] at h
-        cases hR : parseLoop (List.flatMap NItem.print rest) with
-        | error e => rw [hR] at h; cases h
-        | ok more =>
-          rw [hR] at h; cases h
-          rw [itemsText_append, tokenItems_text hT, List.nil_append]
-          exact ih more hR
+        cases hT : tokenItems (some { rawToken eight ps is c with numbers := some v }) with
+        | error e => rw [hT] at h; cases h
+        | ok toks =>
+          rw [hT] at h
+          simp only [] at h
+          cases hR : parseLoop md (List.flatMap NItem.print rest) with
+          | error e => rw [hR] at h; cases h
+          | ok more =>
+            rw [hR] at h; cases h
+            rw [itemsText_append, tokenItems_text hT, List.nil_append]
+            exact ih more hR
 
 private theorem numeric_removeAnsi (items : List NItem) (hv : ∀ i ∈ items, i.Valid) :
     removeAnsi (printN items) = stripN items := by
@@ -178,38 +217,45 @@ private theorem numeric_removeAnsi (items : List NItem) (hv : ∀ i ∈ items, i
     | text t =>
       simp only [printN, stripN, List.flatMap_cons, NItem.print, NItem.strip] at ih ⊢
       rw [removeAnsiAux_append_free hit, ih]
-    | csi ps is c =>
+    | csi eight ps is c =>
       obtain ⟨hps, hi, hc⟩ := hit
       simp only [printN, stripN, List.flatMap_cons, NItem.print, NItem.strip, List.nil_append] at ih ⊢
-      rw [removeAnsiAux_csiSeq hps hi hc, ih]
+      rw [removeAnsiAux_csiSeq eight hps hi hc, ih]
 
-private theorem numeric_plain (items : List NItem) (h : hasEscBracket (printN items) = false) :
-    printN items = stripN items := by
+private theorem numeric_plain (items : List NItem) (h7 : ∀ i ∈ items, i.eightBit = false)
+    (h : hasEscBracket (printN items) = false) : printN items = stripN items := by
   induction items with
   | nil => rfl
   | cons it rest ih =>
+    have ih := ih (fun i hi => h7 i (by simp [hi]))
+    have hit := h7 it (by simp)
     cases it with
     | text t =>
       simp only [printN, stripN, List.flatMap_cons, NItem.print, NItem.strip] at h ih ⊢
       rw [ih (hasEscBracket_append_false h)]
-    | csi ps is c =>
-      simp only [printN, List.flatMap_cons, NItem.print, csiSeq] at h
+    | csi eight ps is c =>
+      simp only [NItem.eightBit] at hit
+      subst hit
+      simp only [printN, List.flatMap_cons, NItem.print, csiSeq, csiIntro] at h
       have := hasEscBracket_of_infix [] (joinSemi ps ++ is ++ [c] ++ List.flatMap NItem.print rest)
       simp only [List.nil_append, List.cons_append, List.append_assoc] at h this
+      simp only [Bool.false_eq_true, if_false, List.cons_append, List.nil_append] at h
       rw [this] at h; cases h
 
 /-- When the escape sequences are ordinary numeric CSI sequences - colours and styles supported or not,
-    cursor movement, erasing: any parameters, intermediates and final byte - the result's text is exactly
-    `s` without them. -/
-theorem C17_numeric (items : List NItem) (hv : ∀ i ∈ items, i.Valid) (f : FmtStr)
-    (h : fromStr (printN items) = .ok f) : text f = stripN items := by
+    cursor movement, erasing: any non-empty parameters, intermediates and final byte - the result's text is
+    exactly `s` without them, PROVIDED the string has no 8-bit sequence or contains "ESC[" somewhere.
+    Missing for the full statement: 8-bit-only strings and empty parameters (finding D28). -/
+theorem C17_numeric_partial (md : Nat) (items : List NItem) (hv : ∀ i ∈ items, i.Valid)
+    (hfast : (∀ i ∈ items, i.eightBit = false) ∨ [ESC, '['] <:+: printN items)
+    (f : FmtStr) (h : fromStr md (printN items) = .ok f) : text f = stripN items := by
   unfold fromStr at h
   split at h
-  · cases hP : parse (printN items) with
+  · cases hP : parse md (printN items) with
     | ok its =>
       rw [hP] at h; cases h
       rw [text_fromStrLoop]
-      exact numeric_parse items hv its hP
+      exact numeric_parse md items hv its hP
     | error e =>
       have := parse_error hP
       subst this
@@ -217,14 +263,69 @@ theorem C17_numeric (items : List NItem) (hv : ∀ i ∈ items, i.Valid) (f : Fm
       simpa [text] using numeric_removeAnsi items hv
   · rename_i hb
     cases h
-    simpa [text] using numeric_plain items (by simpa using hb)
+    rcases hfast with h7 | ⟨a, b, hab⟩
+    · simpa [text] using numeric_plain items h7 (by simpa using hb)
+    · have := hasEscBracket_of_infix a b
+      simp only [List.append_assoc, List.cons_append, List.nil_append] at hab
+      rw [hab] at this
+      exact absurd this hb
 
-/-- Non-vacuity: "a\n" ESC[38;5;196m "x" ESC[2A ESC[K ESC[1 q "end" is in the grammar. -/
-example : ∀ i ∈ [NItem.text ['a', '\n'], .csi [['3', '8'], ['5'], ['1', '9', '6']] [] 'm', .text ['x'],
-    .csi [['2']] [] 'A', .csi [] [] 'K', .csi [['1']] [' '] 'q', .text ['e', 'n', 'd']], i.Valid := by
-  intro i hi
-  simp only [List.mem_cons, List.mem_nil_iff, or_false] at hi
-  rcases hi with rfl | rfl | rfl | rfl | rfl | rfl | rfl <;>
-    simp [NItem.Valid, NoIntro, DigStr] <;> decide
+/-- D28, first shape: `0x9b 31 m x` (a complete 8-bit SGR sequence, no "ESC[" in the string) comes back
+    verbatim - the full statement fails in the model exactly as in the code. -/
+theorem C17_D28_witness (md : Nat) : ¬ C17_numeric_full_statement md := by
+  intro hfull
+  have hw : ∀ i ∈ [NItem.csi true [['3', '1']] [] 'm', .text ['x']], i.Wide := by
+    intro i hi
+    simp only [List.mem_cons, List.mem_nil_iff, or_false] at hi
+    rcases hi with rfl | rfl <;> simp [NItem.Wide, NoIntro] <;> decide
+  have := hfull _ hw [⟨[CSI8, '3', '1', 'm', 'x'], {}⟩] (by
+    unfold fromStr
+    rw [if_neg (by decide)]
+    rfl)
+  revert this
+  decide
+
+/-- D28, second shape: `ESC [ ; 5 H x` (cursor to row 1, column 5) leaves ";5H" in the text. -/
+theorem C17_D28_witness_empty_param (md : Nat) : ¬ C17_numeric_full_statement md := by
+  intro hfull
+  have hw : ∀ i ∈ [NItem.csi false [[], ['5']] [] 'H', .text ['x']], i.Wide := by
+    intro i hi
+    simp only [List.mem_cons, List.mem_nil_iff, or_false] at hi
+    rcases hi with rfl | rfl <;> simp [NItem.Wide, NoIntro] <;> decide
+  have hp1 : peelMatch [ESC, '[', ';', '5', 'H', 'x'] =
+      ([], some ⟨[ESC], none, [], '[', [ESC, '[']⟩, [';', '5', 'H', 'x']) := by decide
+  have hp2 : peelMatch [';', '5', 'H', 'x'] = ([';', '5', 'H', 'x'], none, []) := by decide
+  have hparse : parse md [ESC, '[', ';', '5', 'H', 'x'] = .ok [.str [';', '5', 'H', 'x']] := by
+    unfold parse
+    rw [parseLoop_eq]
+    simp only [peel, hp1, postToken, tokenItems, tokenType]
+    rw [if_neg (by decide), if_neg (by decide)]
+    simp only []
+    rw [parseLoop_eq]
+    simp only [peel, hp2, postToken, tokenItems, parseLoop_nil]
+    rfl
+  have := hfull _ hw [⟨[';', '5', 'H', 'x'], {}⟩] (by
+    unfold fromStr
+    rw [if_pos (by decide)]
+    show (match parse md [ESC, '[', ';', '5', 'H', 'x'] with
+      | .ok items => _ | .error .valueError => _ | .error e => _) = _
+    rw [hparse]
+    rfl)
+  revert this
+  decide
+
+/-- Non-vacuity of C17_numeric_partial: "a\n" ESC[38;5;196m "x" 0x9b 2 A ESC[K ESC[1 q "end" is in the proved
+    grammar and contains "ESC[" (so its 8-bit sequence is covered). -/
+example : (∀ i ∈ [NItem.text ['a', '\n'], .csi false [['3', '8'], ['5'], ['1', '9', '6']] [] 'm', .text ['x'],
+    .csi true [['2']] [] 'A', .csi false [] [] 'K', .csi false [['1']] [' '] 'q', .text ['e', 'n', 'd']], i.Valid) ∧
+    [ESC, '['] <:+: printN [NItem.text ['a', '\n'], .csi false [['3', '8'], ['5'], ['1', '9', '6']] [] 'm',
+      .text ['x'], .csi true [['2']] [] 'A', .csi false [] [] 'K', .csi false [['1']] [' '] 'q',
+      .text ['e', 'n', 'd']] := by
+  constructor
+  · intro i hi
+    simp only [List.mem_cons, List.mem_nil_iff, or_false] at hi
+    rcases hi with rfl | rfl | rfl | rfl | rfl | rfl | rfl <;>
+      simp [NItem.Valid, NoIntro, DigStr] <;> decide
+  · decide
 
 end Curtsies
